@@ -20,6 +20,9 @@ import (
 )
 
 func (g *gen) writeExpr(b *buffer, n *a.Expr, sideEffectsOnly bool, depth uint32) error {
+	if done, err := g.verifWriteExpr(b, n, sideEffectsOnly, depth); done {
+		return err
+	}
 	if depth > a.MaxExprDepth {
 		return fmt.Errorf("expression recursion depth too large")
 	}
